@@ -874,6 +874,7 @@ func genModelledFuncs(r *repo, o *out) {
 		{"stitch", "Assembler", "Run"}, {"stitch", "housekeeping", "Teardown"}, {"stitch", "housekeeping", "append"}, {"stitch", "", "isUnderPath"}, {"stitch", "", "PackMulti"},
 		{"stitch/placer", "", "CopyPlacer"}, {"stitch/placer", "", "BindPlacer"}, {"stitch/placer", "", "NewOverlayPlacer"}, {"stitch/placer", "", "mkDest"},
 		{"stitch/placer", "copyJanitor", "AlwaysTry"}, {"stitch/placer", "bindJanitor", "AlwaysTry"}, {"stitch/placer", "overlayJanitor", "AlwaysTry"},
+		{"stitch/placer", "copyJanitor", "Teardown"}, {"stitch/placer", "bindJanitor", "Teardown"}, {"stitch/placer", "overlayJanitor", "Teardown"},
 		{"transmat/git", "", "unpack"}, {"transmat/git", "", "unpackOneRepo"}, {"transmat/git", "", "pick"},
 		{"warehouse/impl/git", "Controller", "Contains"}, {"warehouse/impl/git", "Controller", "setCacheStorage"},
 	}
